@@ -17,6 +17,40 @@ CLAIMS = {
     },
 }
 
+TECH_FORK = ("path-by-path symbolic execution of the real Go code (go/ssa) with z3 deciding branch feasibility and assertions; "
+             "counterexamples replayed natively")
+MK_NOTE = ("Assumes: real New(); pre-state injected under the property's invariant and required to be reachable by public mutations at replay; handler "
+           "goroutine served inline (fault-free protocol sequentialised), timers never fire, go statements dropped, randId constant. Trusted: go/ssa, "
+           "the symgo interpreter (validated against the native build each run), z3.")
+CLAIMS.update({
+    "C01": {"text": "Every path of one mutation (Add/Remove/Set, CanAdd/CanRemove) through the real queueMutation/processQueue/newTransition/emitEvents/"
+                    "setActiveStates on a machine with any 2-state schema (and curated 3-state ones), any consistent pre-state and symbolic ticks is executed "
+                    "symbolically: parity = activity, all reader views agree, ticks move by exactly +1/+2/0 as documented, canceled and check transitions move "
+                    "nothing, the transition's before/after times are the machine's.",
+            "note": MK_NOTE + " Interleavings with concurrent readers are not explored.", "technique": TECH_FORK, "design_ref": "DESIGN.md section 4 (C01)"},
+    "C02": {"text": "One inductive step of the real resolver (Schema.Parse, TargetStates, parseAdd/parseRequire/stateBlockedBy, setupAccepted) through the public "
+                    "mutation API for every 2-state schema (all relation bits symbolic), curated 3-state schemas and, in the thorough tier, 128 shards of the "
+                    "3-state schema space: Require closure, no Remove conflict, Add relations honoured, every change justified. One genuine resolver defect "
+                    "is a known finding that is re-confirmed natively each run.",
+            "note": MK_NOTE + " graph.TopologicalSort stubbed (order is C05's subject).", "technique": TECH_FORK, "design_ref": "DESIGN.md section 4 (C02)"},
+    "C03": {"text": "All-or-nothing and truthful Result for one mutation with the real handler dispatch (processHandlers, handle, emit*Events) and a symbolic veto "
+                    "table over every handler name; CanAdd/CanRemove change nothing and predict the next result; disposed / over-limit / backing-off machines cancel "
+                    "(Set ignoring Backoff is a known finding).",
+            "note": MK_NOTE, "technique": TECH_FORK, "design_ref": "DESIGN.md section 4 (C03)"},
+    "C05": {"text": "Handler lifecycle on every path of one mutation with a recording map binding: phase order, negotiation handlers see the pre-state, final "
+                    "handlers see the applied target, a veto stops everything, final handlers exactly once per change, Enter/Exit order honours After/Require.",
+            "note": MK_NOTE + " Struct handlers found by reflection, several bindings and StatePrefix are outside the claim.", "technique": TECH_FORK,
+            "design_ref": "DESIGN.md section 4 (C05)"},
+    "C07": {"text": "Auto mutation after an accepted, state-changing mutation over every 2-state schema with Auto bits and every veto assignment: it follows "
+                    "immediately, calls exactly the unblocked inactive Auto states, never chains, and every rejected Auto state is justified by its own handlers "
+                    "or relations. The partial-acceptance panic in emitExitEvents is a known finding.",
+            "note": MK_NOTE + " AnyEnter pinned to no veto; health mutations outside.", "technique": TECH_FORK, "design_ref": "DESIGN.md section 4 (C07)"},
+    "C14": {"text": "Tracer protocol over one drain of the queue (mutation plus auto mutation) with a recording tracer executed symbolically: Init/Start/[Finals]/End "
+                    "once and in order per processed mutation, Finals iff applied, reported times equal machine times and chain, canceled ones report no change, "
+                    "QueueEnd once, MutationQueued once per processed mutation.",
+            "note": MK_NOTE + " Single goroutine, one tracer.", "technique": TECH_FORK, "design_ref": "DESIGN.md section 4 (C14)"},
+})
+
 NA = {
     "C12": "data-race freedom is a property of the Go memory model over all schedules with the race detector as oracle; it is not a value-level assertion "
            "that symbolic execution + SMT of the code can decide (DESIGN.md section 5)",
